@@ -422,6 +422,20 @@ def run(chk):
         v["what"] = "[release profile with dim_check_release] " + v["what"]
     check_command_from_state(chk, prog, sim)
     check_accessors(chk, prog, sim)
+    import rules.C01 as C01
+    import report as _rp
+    subc = _rp.Check("C14", chk.tier)
+    from program import units_enabled
+    if units_enabled(prog):      # the table is about units; with checking compiled out there is nothing to tabulate
+        C01.check_conversions(subc, prog, sim)
+    chk.evaluations += subc.evaluations
+    keyc = "A:command-quantity-round-trip"
+    chk.obligation(keyc, "Command <-> Quantity conversions keep kind and value over the unit grid (table shared with C01)")
+    bc = [v for v in subc.violations if "Command" in v["key"] or v["rule"] == "analysis-incomplete"]
+    for v in bc:
+        chk.violation("C14.A" if v["rule"].startswith("C01") else v["rule"], "conv:" + v["key"], "a command's kind / quantity no longer round-trip: " + v["what"], **v["detail"])
+    if not bc:
+        chk.discharge(keyc)
     check_arith(chk, prog, sim)
     chk.assume("real-arithmetic model for State::update (rounding not decided)", "f32 == 0.0 tests are opaque atoms")
     chk.extra["std_models"] = sorted(sim.stats["models_used"])
